@@ -686,6 +686,18 @@ def property_check(p, t, scope, ops=True, accelerated=False):
         want = (exp_sub, exp_sub and len(p) < len(t), exp_sub and len(p) == len(t), exp_sub)
         if (le, lt, eq, sub) != want:
             return True, 'C07/operator/disagrees', f'(<=,<,is_equal,is_substructure)={(le, lt, eq, sub)} expected {want}'
+        if not is_query(p) and len(t) <= len(p) + 2:
+            try:
+                rev = bool(reference_embeddings(t, p, None, budget=300_000))
+            except OverflowError:
+                rev = None
+            if rev is not None:
+                obs = outcome(lambda: (p >= t, p > t))
+                if obs[0] != 'ok':
+                    return True, f'C07/operator/raises/{obs[0]}', 'operator raised'
+                want2 = (rev, rev and len(p) > len(t))
+                if obs[1] != want2:
+                    return True, 'C07/operator/disagrees', f'(>=,>)={obs[1]} expected {want2}'
     return False, None, f'{len(ref)} embeddings, real code agrees'
 
 
@@ -1049,6 +1061,22 @@ def gen_cases(ctx):
             continue
         yield 'history:target', pq, {'hist': steps}, None
         yield 'history:target', rand_spec(rng.random() < 0.5), {'hist': steps}, None
+    # E4. operator family: the pattern itself, the pattern plus isolated atoms / ions / a second copy (equal bond counts, more
+    #     atoms), the pattern plus a bonded atom, and the reverse directions — `<=`, `<`, `is_equal`, `>=`, `>` on each pair
+    extras = ['O', 'N', 'C', '[Na+]', '[Cl-]', '[Na+].[Cl-]', 'O.O']
+    for sx, f in rng.sample(frags, 10 if quick else len(frags)):
+        fi = wire.mol_to_ints(f)
+        variants = [f, union([f, molgen.parse(rng.choice(extras))]), union([f, molgen.parse(rng.choice(extras))]), union([f, f])]
+        grown = rebuild(f)
+        try:
+            grown.add_bond(rng.choice(list(grown._atoms)), grown.add_atom('C'), 1)
+            variants.append(rebuild(grown))
+        except Exception:
+            pass
+        for v in variants:
+            vi = wire.mol_to_ints(v)
+            yield f'ops:{sx}', {'mol': fi}, vi, None
+            yield f'ops:{sx}', {'mol': vi}, fi, None
     # E. empty scope (boundary)
     for tag, m in rng.sample(hand, 4):
         yield f'empty-scope:{tag}', {'mol': wire.mol_to_ints(molgen.parse('C'))}, tgt(m), []
@@ -1185,7 +1213,8 @@ def stream_get_mapping(ctx):
             lines.append('CQ ' + ' '.join(map(str, g)))
             meta.append(('CQ', tag, inp, None, stc, compiled_ints(*cq), True, None))
         # operators from counts (needs the reverse direction as well, molecules only, no scope)
-        if scope is None and not is_query(p) and st0 == 'ok' and len(p) <= len(t) + 2 and ctx.rng.random() < 0.35:
+        if scope is None and not is_query(p) and st0 == 'ok' and len(p) <= len(t) + 2 and \
+                (tag.split(':')[0] in ('ops', 'multi', 'history', 'small') or ctx.rng.random() < 0.5):
             stb, rb = outcome(lambda: real_mappings(t, p, False, None))
             if stb == 'ok' and len(rb) <= MAX_MAPPINGS:
                 obs = outcome(lambda: (p.is_substructure(t), p.is_equal(t), p <= t, p < t, p >= t, p > t))
